@@ -1391,6 +1391,15 @@ func (f *fragment) rangeLT(bitDepth uint, predicate int64, allowEquality bool) (
 
 // rangeLTUnsigned returns all bits LT/LTE the predicate without considering the sign bit.
 func (f *fragment) rangeLTUnsigned(filter *Row, bitDepth uint, predicate uint64, allowEquality bool) (*Row, error) {
+	// Every stored value is below a predicate that needs more than bitDepth bits.
+	// Without value bits every stored value is zero (the loop below decides
+	// strictness on the last bit, which does not exist then).
+	if predicate>>bitDepth != 0 {
+		return filter, nil
+	} else if bitDepth == 0 && !allowEquality {
+		return NewRow(), nil
+	}
+
 	keep := NewRow()
 
 	// Filter any bits that don't match the current bit value.
@@ -1459,6 +1468,13 @@ func (f *fragment) rangeGT(bitDepth uint, predicate int64, allowEquality bool) (
 }
 
 func (f *fragment) rangeGTUnsigned(filter *Row, bitDepth uint, predicate uint64, allowEquality bool) (*Row, error) {
+	// No stored value is above a predicate that needs more than bitDepth bits.
+	// Without value bits every stored value is zero (the loop below decides
+	// strictness on the last bit, which does not exist then).
+	if predicate>>bitDepth != 0 || (bitDepth == 0 && !allowEquality) {
+		return NewRow(), nil
+	}
+
 	keep := NewRow()
 
 	// Filter any bits that don't match the current bit value.
